@@ -201,6 +201,24 @@ func (c *Call) prepare() *prepared {
 		}
 	}
 	p.call = func() error { return s.callWith(src, unscoped, perType, names, decoys...) }
+	for _, n := range s.CallFns {
+		if n == "reenter" {
+			// (sequential checks only: the object the function validates travels in a package-level variable)
+			rt := reflect.TypeOf(src)
+			for rt.Kind() == reflect.Ptr {
+				rt = rt.Elem()
+			}
+			if rt.Kind() == reflect.Struct {
+				other := reflect.New(rt).Interface()
+				inner := p.call
+				p.call = func() error {
+					reenterSrc = other
+					defer func() { reenterSrc = nil }()
+					return inner()
+				}
+			}
+		}
+	}
 	return p
 }
 
@@ -589,11 +607,28 @@ func genScalarCall(t *rapid.T, mg *msgGen) *ScalarCase {
 	return c
 }
 
+// reenterSrc: what the per-call function "reenter" validates from inside the running validation.
+var reenterSrc interface{}
+
 // perCallFn is the function registered for one call; in the C12 process it
 // also records the strings the library hands to it.
 func perCallFn(n string) valid.CommonValidFn {
 	if f, ok := sizeAliasFns[n]; ok {
 		return f
+	}
+	if n == "reenter" {
+		// a function that validates ANOTHER object of the type being validated (an empty one) before it judges its
+		// own field - a validation inside a validation; it reports like every custom function of the harness
+		inner := perCallFn("reenter-inner")
+		return func(errBuf *strings.Builder, validName, objName, fieldName string, tv reflect.Value) {
+			if reenterSrc != nil {
+				_ = valid.Struct(reenterSrc)
+			}
+			inner(errBuf, validName, objName, fieldName, tv)
+		}
+	}
+	if n == "reenter-inner" {
+		n = "reenter"
 	}
 	if fnReceived != nil {
 		return recordingFn("call", n)
